@@ -237,6 +237,46 @@ func pristineOnce(api API, c *Call, a, b, patchText []byte, mapPolicy int, budge
 	return &o
 }
 
+// Alone runs f - any number of library calls - as one call of a fresh pristine world: package
+// state put back, fresh pools, sorted map iteration, no scheduler.  Engines whose oracle uses the
+// instrumented library outside the run under test (the command-line engine folds DecodePatch and
+// Apply in process) go through it, so that whatever the library does - goroutines, channels,
+// condition variables included - is simulated and deterministic there too, never left to the
+// shims' behaviour outside a world.  It reports a panic of f (as its value) or a hang.
+func Alone(api API, budget int64, f func()) (panicked any, hung bool) {
+	w := simrt.NewWorld(simrt.Config{PoolPolicy: simrt.PoolFresh, MapPolicy: simrt.MapSorted, Sched: simrt.SchedNone})
+	simrt.Install(w)
+	defer simrt.Uninstall()
+	api.Reset()
+	api.SetDefaults(0, false)
+	w.BeginCall(0, 0, nil, budget)
+	finished := false
+	done := make(chan struct{})
+	w.SetExitable(true)
+	go func() {
+		defer close(done)
+		defer func() {
+			if r := recover(); r != nil {
+				if st, _ := hangOrPanic(r); st == StHang || st == StDeadlock {
+					hung = true
+				} else {
+					panicked = r
+				}
+				finished = true
+			}
+		}()
+		f()
+		finished = true
+	}()
+	<-done
+	w.SetExitable(false)
+	if h, _ := w.TookExit(); h || !finished {
+		hung = true
+	}
+	w.EndCall(panicked != nil || hung, 0)
+	return panicked, hung
+}
+
 func pristine(api API, c *Call, a, b, patchText []byte, budget int64) pristinePair {
 	k := descKey(api.Name(), c, a, b, patchText)
 	if p, ok := pristineCache[k]; ok {
